@@ -100,6 +100,10 @@ fn front_case(which: &str, text: &str) -> Sx {
     sx::tagged("front", vec![sx::atom(which), src_sx(text)])
 }
 
+fn frontmany_case(texts: &[&str]) -> Sx {
+    sx::tagged("frontmany", texts.iter().map(|t| src_sx(t)).collect())
+}
+
 fn parse_call(l: &[Sx]) -> Option<CallCase> {
     Some(CallCase {
         method: l.get(2)?.as_str()?,
@@ -196,6 +200,26 @@ fn cases_for_program(rng: &mut Rng, text: &str, rich: bool, out: &mut Vec<Case>,
             out.push(Case { input: probe_case(text, e, &j), tags });
         }
     }
+    // string-set positions (top level and nested) with a member that is not `{}`: must be refused
+    let junk = set_junk();
+    let mut nset = 0usize;
+    for e in &ems {
+        if nset >= if rich { 12 } else { 2 } || !inhabited(&idl, &e.def, 6) {
+            continue;
+        }
+        let v = gen_val(rng, &idl, &e.def, 3);
+        let base = to_json(&idl, &e.def, &v, e.top);
+        for k in 0..2 {
+            let mut j = base.clone();
+            let jk = &junk[(nset + k * 3) % junk.len()];
+            if poison_set(&idl, &e.def, &mut j, jk, 8) {
+                nset += 1;
+                out.push(Case { input: probe_case(text, e, &j), tags: tag("probe-set-poison") });
+            } else {
+                break;
+            }
+        }
+    }
     if !rich {
         return;
     }
@@ -234,6 +258,15 @@ fn cases_for_program(rng: &mut Rng, text: &str, rich: bool, out: &mut Vec<Case>,
         out.push(Case { input: raw_case(text, &mk(Some(good.clone()), None)), tags: tag("raw-valid") });
         out.push(Case { input: raw_case(text, &mk(None, None)), tags: tag("raw-missing-parameters") });
         out.push(Case { input: raw_case(text, &mk(Some(Value::Null), None)), tags: tag("raw-null-parameters") });
+        for (k, jk) in junk.iter().enumerate().take(3) {
+            let mut j = good.clone();
+            if poison_set(&idl, &in_t, &mut j, &junk[(k * 2 + m.name.len()) % junk.len()], 8) {
+                let _ = jk;
+                out.push(Case { input: raw_case(text, &mk(Some(j), None)), tags: tag("raw-set-poison") });
+            } else {
+                break;
+            }
+        }
         for _ in 0..2 {
             let mut j = good.clone();
             let mt = mutate_json(rng, &mut j);
@@ -319,6 +352,7 @@ pub fn witnesses() -> Vec<(&'static str, &'static str)> {
         ("ok", "interface org.example.w\nmethod Union() -> ()\nmethod Default() -> ()\nmethod Call(a: int) -> (b: int)\n"),
         ("ok", "interface org.example.w\ntype Into (a: int)\ntype Some (x, y)\ntype Call (Foo: int)\nmethod Foo(i: Into, s: Some) -> (c: ?Call)\n"),
         ("ok", "interface org.example.w\nerror OnlyAnError (a: int)\n"),
+        ("ok", "interface org.example.tags\ntype Tagged (name: string, tags: [string](), groups: [][string](), maybe: ?[string](), byname: [string][string]())\nmethod Tag(tags: [string]()) -> (tags: [string]())\nmethod Merge(sets: [][string](), extra: ?[string](), t: Tagged) -> (all: [string](), t: ?Tagged)\nerror Bad (seen: [string]())\n"),
         ("not-well-formed", "interface org.example.w\nmethod Foo(a: int, a: int) -> ()\n"),
         ("not-well-formed", "interface org.example.w\nmethod Foo(e: Nope) -> ()\n"),
         ("not-well-formed", "interface org.example.w\ntype T (next: T)\nmethod Foo(t: T) -> ()\n"),
@@ -471,6 +505,28 @@ fn all_cases(ctx: &Ctx) -> Vec<Case> {
     }
     for w in ["build", "tosource", "bin", "derive"] {
         cases.push(Case { input: front_case(w, witnesses()[0].1), tags: vec!["kind:front".into(), format!("front:{}", w), "gen:panic".into()] });
+    }
+    // the build helper on SEVERAL files in one call (what a build.rs with more than one interface does), and the
+    // outcome of the helper on the whole batch inside the probe package's own build script
+    {
+        let ok_w: Vec<&str> = witnesses().into_iter().filter(|w| w.0 == "ok").map(|w| w.1).collect();
+        cases.push(Case { input: frontmany_case(&ok_w[..3.min(ok_w.len())]), tags: vec!["kind:frontmany".into(), "files:valid".into()] });
+        if texts.len() >= 2 {
+            let t: Vec<&str> = texts.iter().take(3).map(|s| s.as_str()).collect();
+            cases.push(Case { input: frontmany_case(&t), tags: vec!["kind:frontmany".into(), "files:valid".into()] });
+            cases.push(Case { input: frontmany_case(&[t[0], "interface org.example.bad\nmethod lower() -> ()\n", t[1]]), tags: vec!["kind:frontmany".into(), "files:rejected-in-the-middle".into()] });
+            cases.push(Case { input: frontmany_case(&[t[1], witnesses()[0].1, t[0]]), tags: vec!["kind:frontmany".into(), "files:panic-in-the-middle".into()] });
+        }
+        if ctx.thorough {
+            for k in 0..8 {
+                let n = 2 + k % 4;
+                let t: Vec<&str> = texts.iter().skip(3 + k * 4).take(n).map(|s| s.as_str()).collect();
+                if t.len() >= 2 {
+                    cases.push(Case { input: frontmany_case(&t), tags: vec!["kind:frontmany".into(), "files:valid".into()] });
+                }
+            }
+        }
+        cases.push(Case { input: sx::tagged("helper-batch", vec![]), tags: vec!["kind:helper-batch".into()] });
     }
     // a definition the generator handles but rustc rejects: the proc macro must fail in rustc, the other
     // front-ends still emit the text
@@ -669,6 +725,36 @@ fn front_obs(which: &str, text: &str, derive_res: &BTreeMap<String, build::BinRe
     )
 }
 
+/// `cargo_build_many(&[f0, f1, …])` in one process (the fe_build tool of the probe package)
+fn frontmany_obs(texts: &[String]) -> Sx {
+    let mut key = String::new();
+    for t in texts {
+        key.push_str(t);
+        key.push('\u{0}');
+    }
+    let dir = build::work_dir().join("front").join(format!("{:016x}-many", build::fnv(key.as_bytes())));
+    let _ = std::fs::remove_dir_all(&dir);
+    let _ = std::fs::create_dir_all(dir.join("out"));
+    let mut c = std::process::Command::new(build::bin_path("fe_build"));
+    c.arg("many").arg(dir.join("out"));
+    for (k, t) in texts.iter().enumerate() {
+        let f = dir.join(format!("org.example.f{}.varlink", k));
+        std::fs::write(&f, t).expect("front input");
+        c.arg(&f);
+    }
+    let (code, _, err) = run_tool(&mut c);
+    let mut l = vec![sx::atom(status_of(code, &err))];
+    for (k, t) in texts.iter().enumerate() {
+        let produced = std::fs::read_to_string(dir.join("out").join(format!("org.example.f{}.rs", k))).unwrap_or_default();
+        let same = match generate_inproc(t, false) {
+            GenStatus::Ok(r) => sx::boolean(r == produced),
+            _ => sx::atom("-"),
+        };
+        l.push(sx::list(vec![sx::boolean(!produced.is_empty()), same]));
+    }
+    sx::tagged("frontmany", l)
+}
+
 fn prepare(cases: &[Sx]) -> HashMap<String, String> {
     // result cache: the same batch (C08 then C09, same seed and tier) is executed once
     let lines: Vec<String> = cases.iter().map(|c| c.render()).collect();
@@ -705,6 +791,9 @@ fn prepare(cases: &[Sx]) -> HashMap<String, String> {
             None => continue,
         };
         let kind = l.first().and_then(|x| x.as_atom()).unwrap_or("");
+        if kind == "frontmany" || kind == "helper-batch" {
+            continue;
+        }
         if kind == "front" {
             if l.get(1).and_then(|x| x.as_atom()) == Some("derive") {
                 if let Some(t) = l.get(2).and_then(src_text) {
@@ -787,6 +876,20 @@ fn prepare(cases: &[Sx]) -> HashMap<String, String> {
             }
         };
         let kind = l.first().and_then(|x| x.as_atom()).unwrap_or("");
+        if kind == "helper-batch" {
+            let st = build::helper_status();
+            obs[ci] = Some(sx::tagged("helper-batch", vec![sx::atom(if st == "ok" { "ok" } else { "failed" })]).render());
+            continue;
+        }
+        if kind == "frontmany" {
+            let texts: Vec<String> = l[1..].iter().filter_map(src_text).collect();
+            if texts.len() != l.len() - 1 || l[1..].iter().zip(texts.iter()).any(|(s, t)| s.render() != src_sx(t).render()) {
+                obs[ci] = Some("(bad-case)".into());
+                continue;
+            }
+            obs[ci] = Some(frontmany_obs(&texts).render());
+            continue;
+        }
         if kind == "front" {
             let which = l.get(1).and_then(|x| x.as_atom()).unwrap_or("");
             let text = l.get(2).and_then(src_text).unwrap_or_default();
